@@ -5,7 +5,7 @@
    normalizeApp / normalizeEndpoint / normalizeEvent drop or add a normalize* call. *)
 From Coq Require Import String List Bool NArith.
 Import ListNotations.
-Require Import Verif.Relmod.Model Verif.Relmod.StmtProps Verif.Relmod.Run Verif.Relmod.CensusProps Verif.Relmod.Rebuild Verif.Gen.RelmodShape.
+Require Import Verif.Relmod.Model Verif.Relmod.PayloadProps Verif.Relmod.StmtProps Verif.Relmod.Run Verif.Relmod.CensusProps Verif.Relmod.Rebuild Verif.Gen.RelmodShape.
 Local Open Scope string_scope.
 Local Open Scope list_scope.
 
@@ -42,6 +42,62 @@ Proof. reflexivity. Qed.
 Lemma every_map_walk_is_sorted : unsorted_map_ranges = [].
 Proof. reflexivity. Qed.
 
+(* ---- the return-payload reader and the annotation value conversion (pkg/arrai/relmod/relmod.go) ---- *)
+(* PRIMITIVE is one regular expression ending in \b, the modifiers are sorted, a name with two values is refused *)
+Lemma payload_grammar_shape :
+  g_prim_mode payload_grammar = PrimWord /\ g_mods payload_grammar = ModsSorted /\ g_dup payload_grammar = DupRefused.
+Proof. repeat split; reflexivity. Qed.
+Lemma payload_primitives_wordy : Forall wordy (g_prims payload_grammar).
+Proof. repeat constructor; try discriminate. Qed.
+(* the rules Payload.v transliterates, the post-processing function, the functions around them: as pinned *)
+Definition pinned_payload_rules : string := "\payload //grammar.parse({://grammar.lang.wbnf: payload -> (status (""<:"" type)? | (status ""<:"")? type) attr?; type -> sequence | set | PRIMITIVE | ref (?=""["") | ref attr? $ | raw attr? $; sequence -> ""sequence of "" type; set -> ""set of "" type; ref -> (app=([^\s.:]+):""::"" ""."")? type=[^\s.]+; raw -> [^\[\n]+\b; PRIMITIVE -> <PRIMITIVE>; status -> (""ok""|""error""|[1-5][0-9][0-9]); attr -> %!Array(nvp|modifier); nvp_item -> str | array=%!Array(nvp_item) | dict=%!Dict(nvp_item); nvp -> name=\w+ ""="" nvp_item; modifier -> ""~"" name=[\w\+]+; str -> ('""' ([^""\\] | [\\][\\brntu'""])* '""' | ""'"" ([^''])* ""'"") { .wrapRE -> /{()}; }; .wrapRE -> /{\s*()\s*}; .macro Array(child) { ""["" (child):"","" ""]"" } .macro Dict(child) { ""{"" entry=(key=child "":"" value=child):"","" ""}"" } :}, ""payload"", payload)".
+Definition pinned_payload_tx : string := "\ast let rec buildNvp = \nvp cond nvp { (array: (nvp_item: i, ...), ...): (a: i => (:.@, @item: buildNvp(.@item))), (dict: (entry: i, ...), ...): (d: i => ( @ : buildNvp(.@item.key.nvp_item), @value: buildNvp(.@item.value.nvp_item) )), (str: ('': s, ...), ...): //eval.value(//seq.join('', s)), _: //eval.value(//seq.join('', nvp.'')) }; let rec type = \t cond t { (:set, ...): (set: type(set.type)), (:sequence, ...): (sequence: type(sequence.type)), (:PRIMITIVE, ...): (primitive: PRIMITIVE.'' rank (:.@)), (:ref, ...): ( appName: ref.app?:[] >> (.'' rank (:.@)), typePath: [ref.type.'' rank (:.@)], ), (:raw, ...): (primitive: 'any'), # TODO: encode raw.'' rank (:.@) _: t, }; ( status: ast.status?.'':'' rank (:.@), type: type(ast.type?:()), nvp: ast.attr?:(ast.type?.attr?:()).nvp?:{} => (@: (.@item.name.'' rank (:.@)), @value: buildNvp(.@item.nvp_item)), modifier: ast.attr?:(ast.type?.attr?:()).modifier?:{} => (.@item.name.'' rank (:.@)) )".
+Definition pinned_fn_text : list (string * string) := [("unpackType", "func unpackType(tuple rel.Tuple, appName []string) interface{} { if name, ok := tuple.Get(""primitive""); ok { return TypePrimitive{Primitive: name.String()} } else if set, ok := tuple.Get(""set""); ok { return TypeSet{unpackType(set.(rel.Tuple), appName)} } else if seq, ok := tuple.Get(""sequence""); ok { return TypeSequence{unpackType(seq.(rel.Tuple), appName)} } else if tuple.HasName(""typePath"") { ctx := context.Background() name := arrai.ToStrings(tuple.MustGet(""appName"").Export(ctx)) if len(name) == 0 { name = appName } return TypeRef{ AppName: name, TypePath: arrai.ToStrings(tuple.MustGet(""typePath"").Export(ctx)), } } else { panic(fmt.Errorf(""unknown type: %T %s"", tuple, tuple)) } }");
+  ("attrToValue", "func attrToValue(a *sysl.Attribute) rel.Value { switch a.Attribute.(type) { case *sysl.Attribute_S: return rel.NewString([]rune(a.GetS())) case *sysl.Attribute_I: return rel.NewNumber(float64(a.GetI())) case *sysl.Attribute_N: return rel.NewNumber(a.GetN()) case *sysl.Attribute_A: as := a.GetA().Elt vs := make([]rel.Value, 0, len(as)) for _, elt := range as { vs = append(vs, attrToValue(elt)) } return rel.NewArray(vs...) default: panic(fmt.Errorf(fmt.Sprintf(""unknown attr type: %x"", a))) } }");
+  ("tags", "func tags(attrs map[string]*sysl.Attribute) []string { var tags []string for attrName, attr := range attrs { if attrName == tagAttr { if _, ok := attr.GetAttribute().(*sysl.Attribute_A); !ok { panic(fmt.Errorf(fmt.Sprintf(""patterns attr not an array: %x"", attr))) } for _, elt := range attr.GetA().Elt { if _, ok := elt.GetAttribute().(*sysl.Attribute_S); !ok { panic(fmt.Errorf(fmt.Sprintf(""pattern value not a string: %x"", elt))) } tags = append(tags, elt.GetS()) } } } return tags }");
+  ("annos", "func annos(attrs map[string]*sysl.Attribute) map[string]interface{} { annos := map[string]interface{}{} for name, attr := range attrs { if name == tagAttr { continue } annos[name] = attrToValue(attr) } return annos }");
+  ("parseFieldType", "func parseFieldType(appName []string, t *sysl.Type) interface{} { switch t := t.Type.(type) { case *sysl.Type_Primitive_: return TypePrimitive{Primitive: t.Primitive.String()} case *sysl.Type_Tuple_: return TypeTuple{Tuple: t.Tuple} case *sysl.Type_TypeRef: ref := t.TypeRef if ref.Ref.Appname != nil { return TypeRef{AppName: ref.Ref.Appname.Part, TypePath: ref.Ref.Path} } else if ref.Context != nil { return TypeRef{AppName: ref.Context.Appname.Part, TypePath: ref.Ref.Path} } return TypeRef{AppName: appName, TypePath: ref.Ref.Path} case *sysl.Type_Set: ft := parseFieldType(appName, t.Set) return TypeSet{Set: ft} case *sysl.Type_Sequence: ft := parseFieldType(appName, t.Sequence) return TypeSequence{Sequence: ft} case *sysl.Type_NoType_: return nil case *sysl.Type_List_: return parseFieldType(appName, t.List.Type) default: return nil } }")].
+Lemma payload_rules_as_modelled : payload_rules = pinned_payload_rules.
+Proof. reflexivity. Qed.
+Lemma payload_tx_as_modelled : payload_tx = pinned_payload_tx.
+Proof. reflexivity. Qed.
+Lemma payload_status_default_ok : payload_status_default = "ok".
+Proof. reflexivity. Qed.
+Lemma relmod_functions_as_modelled : relmod_fn_text = pinned_fn_text.
+Proof. reflexivity. Qed.
+
+(* every primitive the grammar lists is read as that primitive: at the level of the PRIMITIVE rule for every rest of
+   the input that starts at a word boundary (a theorem), and as the type of the whole payload "ok <: p" (computed over
+   the finite list of the source - exhaustive, not sampled) *)
+Theorem current_primitive_rule_accepts p r :
+  In p (g_prims payload_grammar) -> at_boundary r -> primitive payload_grammar (p ++ r) = Some (p, skip_ws r).
+Proof.
+  intros Hin Hr. unfold primitive. rewrite (proj1 payload_grammar_shape).
+  assert (Hp : wordy p). { pose proof payload_primitives_wordy as H. rewrite Forall_forall in H. apply H, Hin. }
+  assert (E : skip_ws (p ++ r) = p ++ r).
+  { destruct Hp as [Hn Hw]. destruct p as [|c p]; [congruence|]. cbn [List.app skip_ws]. inversion Hw as [|? ? Hc _]; subst.
+    assert (is_ws c = false); [|rewrite H; reflexivity].
+    unfold is_word, is_digit, is_ws in *. destruct (N.eqb_spec c 9), (N.eqb_spec c 10), (N.eqb_spec c 12), (N.eqb_spec c 13), (N.eqb_spec c 32);
+      subst; try discriminate; reflexivity. }
+  rewrite E. apply word_primitive_accepts; [apply payload_primitives_wordy|exact Hin|exact Hr].
+Qed.
+Definition accepts_as_primitive (g:grammar) (p:str) : bool :=
+  match parse_payload g (bytes "ok <: " ++ p) with
+  | POk py => match py_type py with Some (PTPrim q) => str_eqb p q | _ => false end
+  | _ => false
+  end.
+Theorem current_listed_primitives_accepted : forall p, In p (g_prims payload_grammar) -> accepts_as_primitive payload_grammar p = true.
+Proof.
+  assert (H : forallb (accepts_as_primitive payload_grammar) (g_prims payload_grammar) = true) by (vm_compute; reflexivity).
+  rewrite forallb_forall in H. exact H.
+Qed.
+
+Theorem current_never_crashes m : normalize child_index_mode alt_index_mode payload_grammar m <> Crashed.
+Proof. apply normalize_never_crashes. rewrite (proj2 (proj2 payload_grammar_shape)). discriminate. Qed.
+
+Theorem current_payload_canonical s py : parse_payload payload_grammar s = POk py -> pay_canonical py.
+Proof. apply parse_ok_canonical. Qed.
+
 (* the statement rows of the CURRENT source: the value-semantics construction *)
 Lemma current_ep_items stmts : ep_items child_index_mode alt_index_mode stmts = ep_items_pure stmts.
 Proof. rewrite child_paths_are_fresh, alt_paths_are_fresh. reflexivity. Qed.
@@ -70,23 +126,24 @@ Qed.
 
 (* one row per element of the module, in every relation, for the CURRENT source *)
 Theorem current_census_exact_counts m rs :
-  normalize child_index_mode alt_index_mode m = Rows rs -> forall R, rel_count R rs = census R m.
+  normalize child_index_mode alt_index_mode payload_grammar m = Rows rs -> forall R, rel_count R rs = census R m.
 Proof. rewrite child_paths_are_fresh, alt_paths_are_fresh. apply census_exact_counts. Qed.
 
 Theorem current_one_row_per_app m rs :
-  normalize child_index_mode alt_index_mode m = Rows rs -> rel_count RApp rs = length m.
+  normalize child_index_mode alt_index_mode payload_grammar m = Rows rs -> rel_count RApp rs = List.length m.
 Proof. rewrite child_paths_are_fresh, alt_paths_are_fresh. apply one_row_per_app. Qed.
 
-Theorem current_one_stmt_row_per_visible_statement a ep stmts :
-  rel_count RStmt (map (item_row a ep) (ep_items child_index_mode alt_index_mode stmts)) = list_sum (map visible_stmts stmts).
+Theorem current_one_stmt_row_per_visible_statement g a sa ep stmts :
+  rel_count RStmt (map (item_row g a sa ep) (ep_items child_index_mode alt_index_mode stmts)) = list_sum (map visible_stmts stmts).
 Proof. rewrite current_ep_items. apply one_stmt_row_per_visible_statement. Qed.
 
 (* the round trip for the CURRENT source *)
 Theorem current_rows_lossless m rs :
-  normalize child_index_mode alt_index_mode m = Rows rs -> rebuild rs = project m.
+  normalize child_index_mode alt_index_mode payload_grammar m = Rows rs -> rebuild rs = project payload_grammar m.
 Proof. rewrite child_paths_are_fresh, alt_paths_are_fresh. apply rows_lossless. Qed.
 
 Theorem current_rows_determine_projection m1 m2 rs :
-  normalize child_index_mode alt_index_mode m1 = Rows rs -> normalize child_index_mode alt_index_mode m2 = Rows rs ->
-  project m1 = project m2.
+  normalize child_index_mode alt_index_mode payload_grammar m1 = Rows rs ->
+  normalize child_index_mode alt_index_mode payload_grammar m2 = Rows rs ->
+  project payload_grammar m1 = project payload_grammar m2.
 Proof. rewrite child_paths_are_fresh, alt_paths_are_fresh. apply rows_determine_projection. Qed.
